@@ -107,6 +107,22 @@ pub fn map_collect_btreemap<I: Iterator, K: Ord, V, F: FnMut(I::Item) -> (K, V)>
             && (forall|k: int| 0 <= k < vals.len() && (forall|j: int| k < j < vals.len() ==> vals[j].0 != vals[k].0) ==> r@[#[trigger] vals[k].0] == vals[k].1),
 { it.map(f).collect() }
 
+// `RECV.map(CLOSURE).collect::<Result<Vec<_>, E>>()` (`impl FromIterator<Result<A, E>> for Result<V, E>`, std docs: "Takes each
+// element in the Iterator: if it is an Err, no further elements are taken, and the Err is returned.  Should no Err occur, a
+// container with the values of each Result is returned.").  `vals` are the values the closure actually returned, in order.
+#[verifier::external_body]
+pub fn map_collect_result_vec<I: Iterator, B, E, F: FnMut(I::Item) -> Result<B, E>>(it: I, f: F) -> (r: Result<Vec<B>, E>)
+    requires
+        it.obeys_prophetic_iter_laws(),
+        forall|k: int| 0 <= k < it.remaining().len() ==> call_requires(f, (#[trigger] it.remaining()[k],)),
+    ensures
+        exists|vals: Seq<Result<B, E>>| #![auto] vals.len() <= it.remaining().len()
+            && (forall|k: int| 0 <= k < vals.len() ==> call_ensures(f, (it.remaining()[k],), #[trigger] vals[k]))
+            && (r is Ok ==> vals.len() == it.remaining().len() && (r->Ok_0)@.len() == vals.len()
+                    && forall|k: int| 0 <= k < vals.len() ==> #[trigger] vals[k] == Ok::<B, E>((r->Ok_0)@[k]))
+            && (r is Err ==> vals.len() > 0 && vals.last() == Err::<B, E>(r->Err_0) && forall|k: int| 0 <= k < vals.len() - 1 ==> #[trigger] vals[k] is Ok),
+{ it.map(f).collect() }
+
 // ---- std items without a vstd specification ------------------------------------------------------
 pub assume_specification<T: PartialEq>[ <[T]>::contains ](s: &[T], x: &T) -> (r: bool)
     ensures <T as PartialEqSpec>::obeys_eq_spec() ==> r == (exists|i: int| 0 <= i < s@.len() && PartialEqSpec::eq_spec(&#[trigger] s@[i], x));
@@ -125,6 +141,53 @@ pub assume_specification<T: Ord, A: core::alloc::Allocator + Clone>[ BTreeSet::<
     ensures key_obeys_cmp_spec::<T>() ==> (s@.len() == 0 ==> r is None)
         && (s@.len() > 0 ==> r is Some && s@.contains(*r->Some_0)
             && forall|x: T| #[trigger] s@.contains(x) ==> x == *r->Some_0 || OrdSpec::cmp_spec(&x, r->Some_0) is Less);
+
+// ---- C12 (contracts/codec.vc): byte-slice helpers ------------------------------------------------------
+// <[T]>::to_vec: "Copies self into a new Vec" (std docs)
+
+// <[T]>::chunks_exact / ChunksExact::remainder (std docs): "Returns an iterator over chunk_size elements of the slice at a
+// time ... If chunk_size does not divide the length of the slice, then the last up to chunk_size-1 elements will be omitted
+// and can be retrieved from the remainder function of the iterator.  Panics if chunk_size is zero."
+// The iterator is modelled by the slice it was made from and its chunk size; `spec_chunks` is the list of chunks it yields.
+#[verifier::external_type_specification]
+#[verifier::external_body]
+#[verifier::reject_recursive_types(T)]
+pub struct ExChunksExact<'a, T: 'a>(core::slice::ChunksExact<'a, T>);
+
+pub uninterp spec fn chunks_src<'a, T>(c: &core::slice::ChunksExact<'a, T>) -> Seq<T>;
+pub uninterp spec fn chunks_size<'a, T>(c: &core::slice::ChunksExact<'a, T>) -> nat;
+
+pub open spec fn spec_chunks<T>(s: Seq<T>, n: nat) -> Seq<Seq<T>>
+{ if n == 0 { Seq::empty() } else { Seq::new(s.len() / n, |k: int| s.subrange(k * (n as int), k * (n as int) + (n as int))) } }
+
+pub open spec fn spec_chunks_remainder<T>(s: Seq<T>, n: nat) -> Seq<T>
+{ if n == 0 { Seq::empty() } else { s.subrange(((s.len() / n) * n) as int, s.len() as int) } }
+
+pub assume_specification<'a, T>[ <[T]>::chunks_exact ](s: &'a [T], chunk_size: usize) -> (r: core::slice::ChunksExact<'a, T>)
+    requires chunk_size != 0,
+    ensures chunks_src(&r) == s@, chunks_size(&r) == chunk_size as nat;
+
+pub assume_specification<'a, T>[ core::slice::ChunksExact::<'a, T>::remainder ](c: &core::slice::ChunksExact<'a, T>) -> (r: &'a [T])
+    ensures r@ == spec_chunks_remainder(chunks_src(c), chunks_size(c));
+
+// The `?` operator on `Result<_, E>` inside a function returning `Result<_, F>`: "Err(e) => return Err(From::from(e))" (Rust
+// reference, the question mark operator).  vstd models the conversion by the uninterpreted relation `spec_from` and only says what
+// it is for F == E; this axiom adds the general case: the converted error is what vstd's own specification of `From::from` gives
+// (`obeys_from_spec() ==> r == from_spec(e)`).  Use with `broadcast use crate::vstdx::ax_question_mark_from;` at function entry.
+pub broadcast axiom fn ax_question_mark_from<S: From<T>, T>(e: T, r: S)
+    ensures #[trigger] vstd::std_specs::control_flow::spec_from::<S, T>(e, r) && <S as vstd::std_specs::convert::FromSpec<T>>::obeys_from_spec()
+        ==> r == <S as vstd::std_specs::convert::FromSpec<T>>::from_spec(e);
+
+// The byte strings a generic `I: IntoIterator<Item = V>, V: AsRef<[u8]>` yields (`it.into_iter()`, each item through `as_ref()`).
+// Uninterpreted: it only gives the *assumed* contract of `VerifiableSecretSharingCommitment::deserialize<I, V>` (generic code that is
+// outside Verus's reach, contracts/codec.vc) something to speak about.  For the one instance verified code creates, a fresh
+// `ChunksExact<u8>` (Verus has no specification of its `next`, so verified code can never advance one), the items are the chunks.
+pub uninterp spec fn spec_byte_items<I>(it: I) -> Seq<Seq<u8>>;
+pub axiom fn ax_chunks_exact_items<'a>(c: core::slice::ChunksExact<'a, u8>)
+    ensures spec_byte_items(c) == spec_chunks(chunks_src(&c), chunks_size(&c));
+
+// [V]::concat for V = Vec<T> ("Flattens a slice of T into a single value"): the concatenation of the items in order
+pub open spec fn spec_concat<T>(v: Seq<Vec<T>>) -> Seq<T> { v.map_values(|x: Vec<T>| x@).flatten() }
 
 } // verus!
 }
